@@ -20,10 +20,15 @@ BasicCreds   == {"basic_valid", "basic_wrongpw", "basic_malformed"}
 ComboCreds   == {"valid_plus_badbearer", "expired_plus_goodbearer"}
 Creds == {"none"} \cup SessionCreds \cup BearerCreds \cup BasicCreds \cup ComboCreds
 
-Users == {"alice", "bob", "carol"}
+\* dave: the e-mail claim holds "dave.example.com" (not an address); erin: no e-mail claim, subject "erin.example.com" (bearer only).
+\* Neither matches the e-mail rule, which admits addresses @example.com.
+Users == {"alice", "bob", "carol", "dave", "erin"}
 Endpoints == {"proxy", "authonly", "userinfo", "sign_in", "start", "static", "robots", "ping"}
 Methods == {"GET", "POST", "OPTIONS"}
-Bypass  == {"none", "route", "ip"}              \* which bypass the REQUEST matches (route: path under /open; ip: trusted source address)
+\* which bypass the REQUEST matches (route: path under /open; ip: trusted source address), or which one it only CLAIMS to match through
+\* client-supplied headers the proxy must ignore with reverse-proxy off (X-Forwarded-Uri: /open/x ; X-Forwarded-For / X-Real-Ip: trusted address)
+Bypass  == {"none", "route", "ip", "spoof_uri", "spoof_ip"}
+RealBypass == {"route", "ip"}
 ErrModes == {"page", "force_json", "accept_json", "api_route"}
 
 Cfgs == [store : {"cookie", "redis"}, preflight : BOOLEAN, forceJSON : BOOLEAN, spb : BOOLEAN, bearer : BOOLEAN, htpasswd : BOOLEAN]
@@ -38,7 +43,7 @@ CredValid(c, cfg) ==
       [] OTHER                                                       -> FALSE
 \* the identity behind the credential: the given user, or the htpasswd user (exempt from e-mail rules, group g1)
 Authorised(c, u) == IF c = "basic_valid" THEN TRUE ELSE UserAuthorised(u)
-Bypassed(r, cfg) == r.bypass # "none" \/ (cfg.preflight /\ r.method = "OPTIONS")
+Bypassed(r, cfg) == r.bypass \in RealBypass \/ (cfg.preflight /\ r.method = "OPTIONS")
 
 Req_Served(r, cfg)   == (CredValid(r.cred, cfg) /\ Authorised(r.cred, r.user)) \/ Bypassed(r, cfg)
 \* user info is disclosed to the holder of a valid credential only (authorised, or on a bypassed request)
@@ -70,9 +75,11 @@ DefaultCfg(cfg) == ~cfg.preflight /\ ~cfg.forceJSON /\ ~cfg.spb /\ cfg.bearer /\
 InScope(c) ==
     /\ (c.cred = "ticket_no_entry" => c.cfg.store = "redis")
     /\ (c.errmode = "force_json" <=> c.cfg.forceJSON)
-    /\ (c.errmode = "api_route" => c.endpoint = "proxy" /\ c.bypass # "route")
+    /\ (c.errmode = "api_route" => c.endpoint = "proxy" /\ c.bypass \in {"none", "ip"})
     /\ (c.errmode # "page" => c.endpoint = "proxy")
     /\ (c.user # "alice" => c.cred \in {"valid", "aged_valid", "bearer_valid", "expired", "valid_plus_badbearer"})
+    /\ (c.user = "erin" => c.cred = "bearer_valid")
+    /\ (c.bypass \in {"spoof_uri", "spoof_ip"} => c.endpoint \in {"proxy", "authonly"} /\ c.errmode \in {"page", "force_json", "accept_json"})
     /\ (c.endpoint \notin {"proxy", "authonly", "userinfo"} => c.method = "GET" /\ c.bypass = "none" /\ c.errmode = "page" /\ DefaultCfg(c.cfg)
                                                              /\ c.cred \in {"none", "valid", "expired", "bearer_valid"})
     /\ (c.method = "POST" => c.endpoint \in {"proxy", "authonly"})
@@ -82,7 +89,7 @@ InScope(c) ==
     /\ (c.cfg.spb => c.errmode = "page" /\ c.endpoint = "proxy")
     /\ (c.cfg.preflight => c.method = "OPTIONS" \/ c.cred \in {"none", "valid"})
     /\ (Tier = "quick" =>
-          /\ (c.bypass # "none" => c.cred \in {"none", "valid", "expired", "tamper_sig", "bearer_otherkey", "basic_wrongpw"} /\ c.errmode = "page")
+          /\ (c.bypass # "none" => c.cred \in {"none", "valid", "expired", "tamper_sig", "bearer_otherkey", "basic_wrongpw"} /\ c.errmode \in {"page", "force_json"})
           /\ (c.method = "OPTIONS" => c.cred \in {"none", "valid", "tamper_sig"})
           /\ (c.method = "POST" => c.cred \in {"none", "valid", "expired", "bearer_valid"})
           /\ (c.errmode \in {"accept_json", "api_route"} => c.cred \in {"none", "valid", "expired", "tamper_value", "bearer_otherkey"} /\ c.method = "GET")
